@@ -224,11 +224,6 @@ class AttrMixin:
 
     def set_local(self, name, val):
         fr = self.frames[-1]
-        # implicit flow: assignment under control
-        dep = set()
-        for c, _ in fr.ctrl:
-            dep |= self.sym(c)
-        val = val.with_dep(dep)
         if name in getattr(fr, "nonlocals", ()):
             d = self.scope_of(name)
             if d is not None:
